@@ -311,8 +311,16 @@ def traj_cli(run, case, rng, work):
         argv.append("--save_as_kitti")
     out_dir = os.path.join(work, "out")
     os.makedirs(out_dir)
-    res = cli.run_cli("traj", argv, cwd=out_dir)
-    got = C01.outcome_class(res)
+    if case.get("exe"):
+        # the real executable in a fresh interpreter
+        pr = cli.run_subprocess("traj", argv, out_dir, os.environ["HOME"])
+        res = cli.CliResult()
+        res.exit = pr.returncode
+        got = None if pr.returncode == 0 else "exit %d" % pr.returncode
+        run.hit("runs through the real executable")
+    else:
+        res = cli.run_cli("traj", argv, cwd=out_dir)
+        got = C01.outcome_class(res)
     texts = [open(p).read() for p, _ in trajs.values()]
     def active(k, v):
         if k in ("t_max_diff", "tf_form", "tf_scale", "use_ref"):
@@ -337,6 +345,8 @@ def traj_cli(run, case, rng, work):
         run.hit("ambiguous (not judged): " + str(a))
         return
     except pipeline.Refuse as r:
+        if case.get("exe"):
+            got = r.kind if got == "exit 1" else got  # the entry point maps known exceptions to exit 1
         run.check(got == r.kind, "evo_traj refuses what the documentation refuses", case,
                   "expected %s (%s) but evo_traj gave %s" % (r.kind, r, got or "a result"),
                   key="cli:refusal-mismatch", argv=argv)
@@ -380,6 +390,8 @@ def main(run):
     # no-option exports must equal the input
     for i in run.mine({"quick": 30, "thorough": 300}[run.tier]):
         k_cli(run, run.case("cli", 10**6 + i, force={k: False for k in LATTICE_OPTS}))
+    for i in run.mine({"quick": 6, "thorough": 60}[run.tier]):
+        k_cli(run, run.case("cli", 3 * 10**6 + i, exe=True))
     if run.tier == "thorough":
         # bounded lattice: every subset of up to 3 options switched on, the others off
         import itertools
@@ -393,4 +405,4 @@ def main(run):
     run.need("exported positions follow the documented order of operations",
              "exported orientations follow the documented order",
              "exported timestamps are the documented ones", "reference exports judged",
-             "refusals agreed", "export has the documented poses")
+             "refusals agreed", "export has the documented poses", "runs through the real executable")
